@@ -18,13 +18,23 @@ pub mod ax {
     // TRUSTED: Display for ParseIntError never fails / has no precondition.
     pub broadcast axiom fn parse_int_error_display(e: core::num::ParseIntError, f: core::fmt::Formatter<'_>)
         ensures #[trigger] DisplaySpec::fmt_req(&e, &f);
-    // TRUSTED: <i32 as FromStr>::from_str accepts exactly [+-]?[0-9]+ whose value fits in i32
-    // (std docs of `i32::from_str`), and yields that value.
+    // TRUSTED: <iN as FromStr>::from_str accepts exactly [+-]?[0-9]+ whose value fits in iN
+    // (std docs of `from_str` for the primitive integers), and yields that value.
     pub broadcast axiom fn parse_i32(s: Seq<char>)
         ensures (#[trigger] super::stdspec::parse_spec::<i32>(s)) is Some
                     <==> (super::stdspec::is_numeral(s) && i32::MIN <= super::stdspec::int_of(s) <= i32::MAX),
                 super::stdspec::parse_spec::<i32>(s) is Some
                     ==> super::stdspec::parse_spec::<i32>(s)->0 as int == super::stdspec::int_of(s);
+    pub broadcast axiom fn parse_i64(s: Seq<char>)
+        ensures (#[trigger] super::stdspec::parse_spec::<i64>(s)) is Some
+                    <==> (super::stdspec::is_numeral(s) && i64::MIN <= super::stdspec::int_of(s) <= i64::MAX),
+                super::stdspec::parse_spec::<i64>(s) is Some
+                    ==> super::stdspec::parse_spec::<i64>(s)->0 as int == super::stdspec::int_of(s);
+    pub broadcast axiom fn parse_i128(s: Seq<char>)
+        ensures (#[trigger] super::stdspec::parse_spec::<i128>(s)) is Some
+                    <==> (super::stdspec::is_numeral(s) && i128::MIN <= super::stdspec::int_of(s) <= i128::MAX),
+                super::stdspec::parse_spec::<i128>(s) is Some
+                    ==> super::stdspec::parse_spec::<i128>(s)->0 as int == super::stdspec::int_of(s);
 //# section: ax-tryfrom
     // TRUSTED: i32::try_from(x) for the integer carrier types: lossless (infallible) for the types
     // that fit, and `Ok(x)` exactly when x is within i32 for the wider ones (std docs of TryFrom).
@@ -62,6 +72,24 @@ pub mod ax {
         ensures (#[trigger] <i32 as vstd::std_specs::convert::TryFromSpec<u64>>::try_from_spec(x)) is Ok <==> x <= i32::MAX,
                 <i32 as vstd::std_specs::convert::TryFromSpec<u64>>::try_from_spec(x) is Ok
                     ==> <i32 as vstd::std_specs::convert::TryFromSpec<u64>>::try_from_spec(x)->Ok_0 == x as int;
+//# section: ax-from-unsigned
+    // TRUSTED: i128::from(x) for unsigned x is the lossless widening `x as i128` (std docs of From;
+    // this vstd specifies the same-signedness pairs only).  vstd's contract of `from` is
+    // `obeys_from_spec() ==> ret == from_spec(x)`.
+    pub broadcast axiom fn from_i128_obeys()
+        ensures
+            <i128 as vstd::std_specs::convert::FromSpec<u8>>::obeys_from_spec(),
+            <i128 as vstd::std_specs::convert::FromSpec<u16>>::obeys_from_spec(),
+            <i128 as vstd::std_specs::convert::FromSpec<u32>>::obeys_from_spec(),
+            <i128 as vstd::std_specs::convert::FromSpec<u64>>::obeys_from_spec();
+    pub broadcast axiom fn from_i128_u8(x: u8)
+        ensures #[trigger] <i128 as vstd::std_specs::convert::FromSpec<u8>>::from_spec(x) == x as i128;
+    pub broadcast axiom fn from_i128_u16(x: u16)
+        ensures #[trigger] <i128 as vstd::std_specs::convert::FromSpec<u16>>::from_spec(x) == x as i128;
+    pub broadcast axiom fn from_i128_u32(x: u32)
+        ensures #[trigger] <i128 as vstd::std_specs::convert::FromSpec<u32>>::from_spec(x) == x as i128;
+    pub broadcast axiom fn from_i128_u64(x: u64)
+        ensures #[trigger] <i128 as vstd::std_specs::convert::FromSpec<u64>>::from_spec(x) == x as i128;
 //# section: ax-string-eq
     // TRUSTED: String's PartialEq compares the character sequences.
     pub broadcast axiom fn string_peq(a: String, b: String)
